@@ -8,7 +8,12 @@ import (
 	"golang.org/x/tools/go/ssa"
 )
 
-func (c *FnCtx) guard() string { return c.reach[c.curBlock] }
+func (c *FnCtx) guard() string {
+	if c.extraGuard != "" {
+		return and(c.reach[c.curBlock], c.extraGuard)
+	}
+	return c.reach[c.curBlock]
+}
 
 // safety obligation (C08 sweep): recorded only when the sweep is on; always assumed afterwards.
 func (c *FnCtx) safety(kind, goal string, pos token.Pos, detail string) {
@@ -103,6 +108,12 @@ func (c *FnCtx) instr(in ssa.Instruction) {
 		c.instrPanic(x)
 	case *ssa.Defer:
 		c.defers = append(c.defers, x)
+		// path-sensitive: the deferred call runs only if this instruction was executed
+		flag := fmt.Sprintf("L_defer%d", len(c.defers))
+		c.heapDecl(flag, "Bool")
+		c.heapGet(flag, "Bool")
+		c.heapSet(flag, "Bool", "true")
+		c.deferFlags = append(c.deferFlags, flag)
 	case *ssa.RunDefers:
 		c.instrRunDefers(x)
 	case *ssa.Select:
@@ -881,7 +892,29 @@ func (c *FnCtx) instrPanic(x *ssa.Panic) {
 func (c *FnCtx) instrRunDefers(x *ssa.RunDefers) {
 	for i := len(c.defers) - 1; i >= 0; i-- {
 		d := c.defers[i]
+		f := c.heapGet(c.deferFlags[i], "Bool")
+		if f == c.entry[c.deferFlags[i]] {
+			// never set on any path reaching here: the entry value of the flag is false
+			continue
+		}
+		before := c.cur.clone()
+		saved := c.extraGuard
+		c.extraGuard = and(saved, f)
 		c.callCommon(&d.Call, nil, d.Pos())
+		c.extraGuard = saved
+		for _, h := range c.heapOrder {
+			cur, ok := c.cur[h]
+			if !ok {
+				continue
+			}
+			b, ok2 := before[h]
+			if !ok2 {
+				b = c.entry[h]
+			}
+			if cur != b {
+				c.heapSet(h, c.heapSort[h], ite(f, cur, b))
+			}
+		}
 	}
 }
 
